@@ -175,7 +175,8 @@ public:
     /**
      * \brief Removes all of the packets and data stored that 
      * belongs to IP headers whose identifier, source and destination
-     * addresses are equal to the provided parameters.
+     * addresses are equal to the provided parameters (whatever their
+     * protocol is).
      * 
      * \param id The idenfier to search.
      * \param addr1 The source address to search.
@@ -185,10 +186,12 @@ public:
     void remove_stream(uint16_t id, IPv4Address addr1, IPv4Address addr2);
 private:
     typedef std::pair<IPv4Address, IPv4Address> address_pair;
-    typedef std::pair<uint16_t, address_pair> key_type;
+    // identification, (source, destination), protocol: the RFC 791 buffer identifier
+    typedef std::pair<uint16_t, std::pair<address_pair, uint8_t> > key_type;
     typedef std::map<key_type, Internals::IPv4Stream> streams_type;
 
     key_type make_key(const IP* ip) const;
+    key_type make_key(uint16_t id, IPv4Address src, IPv4Address dst, uint8_t protocol) const;
     address_pair make_address_pair(IPv4Address addr1, IPv4Address addr2) const;
     
     streams_type streams_;
